@@ -12,7 +12,13 @@ import (
 // ---- deterministic PRNG (splitmix64): every random choice derives from one state ----
 type Rng struct{ s uint64 }
 
-func NewRng(seed uint64) *Rng { return &Rng{s: seed*0x9E3779B97F4A7C15 + 0x1234567} }
+func NewRng(seed uint64) *Rng {
+	// scramble the seed so that consecutive seeds give unrelated streams
+	z := seed*0xBF58476D1CE4E5B9 + 0x94D049BB133111EB
+	z = (z ^ (z >> 31)) * 0xD6E8FEB86659FD93
+	z = (z ^ (z >> 29)) * 0x9E3779B97F4A7C15
+	return &Rng{s: z ^ (z >> 32)}
+}
 func (r *Rng) Next() uint64 {
 	r.s += 0x9E3779B97F4A7C15
 	z := r.s
